@@ -18,30 +18,30 @@ import (
 
 // MapRange is one `for k, v := range m` over a map.
 type MapRange struct {
-	Fn      *ssa.Function
-	Range   *ssa.Range
-	Next    *ssa.Next
-	Header  *ssa.BasicBlock
-	Body    map[*ssa.BasicBlock]bool
-	Key     ssa.Value // may be nil
-	Val     ssa.Value // may be nil
-	Desc    string    // description of the ranged map (stable)
-	Problems []string // undecided / order-sensitive constructs
-	Tainted []ssa.Value
-	Notes   []string
+	Fn            *ssa.Function
+	Range         *ssa.Range
+	Next          *ssa.Next
+	Header        *ssa.BasicBlock
+	Body          map[*ssa.BasicBlock]bool
+	Key           ssa.Value // may be nil
+	Val           ssa.Value // may be nil
+	Desc          string    // description of the ranged map (stable)
+	Problems      []string  // undecided / order-sensitive constructs
+	Tainted       []ssa.Value
+	Notes         []string
 	appendHelpers []*ssa.Call // calls of append-like helpers that extend a loop-carried slice
 }
 
 // SortSite is a sort.Sort/Stable/Slice call.
 type SortSite struct {
-	Fn    *ssa.Function
-	Call  *ssa.Call
-	Value ssa.Value // the slice being sorted
-	Less  *ssa.Function
+	Fn        *ssa.Function
+	Call      *ssa.Call
+	Value     ssa.Value // the slice being sorted
+	Less      *ssa.Function
 	LessValue *ssa.Function // the function value handed to the sort (before unwrapping wrappers)
-	Cmp   *CmpResult
-	Total bool   // comparator total (after the functionally-dependent table)
-	Why   string // explanation when not total
+	Cmp       *CmpResult
+	Total     bool   // comparator total (after the functionally-dependent table)
+	Why       string // explanation when not total
 }
 
 // TaintStep records how an order-tainted value travels.
@@ -52,17 +52,17 @@ type OrderViolation struct {
 }
 
 type OrderAnalysis struct {
-	P        *core.Prog
-	Funcs    []*ssa.Function
-	inSet    map[*ssa.Function]bool
-	Pure     func(fn *ssa.Function) bool          // E1 purity oracle
-	PureExcept func(fn *ssa.Function, ownedParam int) bool // purity with one parameter owned by the caller's loop
-	Observer func(fn *ssa.Function) bool          // trace functions
-	FD       func(site *SortSite, field string) (bool, string) // functionally-dependent table
-	Ranges   []*MapRange
-	Sorts    []*SortSite
-	Viol     []OrderViolation
-	Undecided []OrderViolation
+	P          *core.Prog
+	Funcs      []*ssa.Function
+	inSet      map[*ssa.Function]bool
+	Pure       func(fn *ssa.Function) bool                       // E1 purity oracle
+	PureExcept func(fn *ssa.Function, ownedParam int) bool       // purity with one parameter owned by the caller's loop
+	Observer   func(fn *ssa.Function) bool                       // trace functions
+	FD         func(site *SortSite, field string) (bool, string) // functionally-dependent table
+	Ranges     []*MapRange
+	Sorts      []*SortSite
+	Viol       []OrderViolation
+	Undecided  []OrderViolation
 
 	resTaint   map[*ssa.Function]string // function -> reason its results are order-tainted
 	paramTaint map[*ssa.Parameter]string
